@@ -127,8 +127,11 @@ def _texts(graph: typing.Dict[int, typing.List[int]], relative: bool) -> typing.
     return out
 
 
-def make_graph(relative: bool, dup: int, orders: typing.List[typing.List[int]]):
-    """dup: -1 = none, otherwise the node index that has a second copy (same name/version) in another directory."""
+def make_graph(relative: bool, dup: int, orders: typing.List[typing.List[int]], dup_same_root: bool = False):
+    """
+    dup: -1 = none, otherwise the node index that has a second copy (same name/version): in another directory, or - with
+    dup_same_root - in the same root directory under another file name (with a fixed port-ID).
+    """
     nbits = len(EDGES)
 
     def concrete(bits: int, oi: int) -> typing.Any:
@@ -146,7 +149,10 @@ def make_graph(relative: bool, dup: int, orders: typing.List[typing.List[int]]):
             if dup >= 0:
                 # the namesake in the other directory is an innocent definition without references: resolving a cycle
                 # or a self reference through it would "succeed"
-                d[10 + dup] = textio.MemDefinition(NODES[dup][0], NODES[dup][1], "uint64 unrelated\n@sealed\n", root="/verif-mem-other")
+                if dup_same_root:
+                    d[10 + dup] = textio.MemDefinition(NODES[dup][0], NODES[dup][1], "uint64 unrelated\n@sealed\n", 7001)
+                else:
+                    d[10 + dup] = textio.MemDefinition(NODES[dup][0], NODES[dup][1], "uint64 unrelated\n@sealed\n", root="/verif-mem-other")
             return d
 
         defs = fresh()
@@ -271,6 +277,13 @@ def conditions(tier: str, seed: int) -> typing.List[Cond]:
                                          "versions, self reference, cycles) x %d target orders; %s references; duplicate copy of "
                                          "node %d in another directory" % (len(orders), "relative" if relative else "absolute", dup)],
                             witness={"bits": 7, "oi": 0}, budget=1800.0, need_exhaust=True))
+    for dup in (1, 2):
+        orders = all_orders if thorough else rnd.sample(all_orders, 3) + [[0]]
+        out.append(Cond(PROP, "c09.graph", make_graph, {"relative": False, "dup": dup, "orders": orders, "dup_same_root": True},
+                        {"bits": int, "oi": int}, kind="choice",
+                        assumptions=["as above; the duplicate of node %d lives in the SAME root directory under another file "
+                                     "name (with a port-ID)" % dup],
+                        witness={"bits": 7, "oi": 0}, budget=1800.0, need_exhaust=True))
     out.append(Cond(PROP, "c09.case-sequence", make_case_sequence, {}, {"i": int, "j": int, "k": int}, kind="choice",
                     assumptions=["three references to one type, each in one of 6 spellings (2 correct, 4 differing by case)"],
                     witness={"i": 0, "j": 1, "k": 0}, budget=300.0, need_exhaust=True))
